@@ -39,6 +39,12 @@ def _child(rng, name, depth, lang, all_wfs, wb):
             t['body'] = {'kind': 'wf', 'wf': cname,
                          'input': {'declared': ['const', 11],
                                    'undeclared_k': ['const', 22]}}
+            if rng.random() < 0.25:
+                # an undeclared input that happens to be called 'env': it is
+                # an execution parameter of the child like any other and
+                # must not replace the root execution's environment
+                t['body']['input']['env'] = ['const', {'e1': 'CHILD-ENV',
+                                                       'e2': 8}]
             if rng.random() < 0.3:
                 cnt = rng.choice([1, 2, 3])
                 t['with_items'] = {'var': 'i', 'n': cnt,
@@ -96,6 +102,19 @@ def make_case(seed, tier):
     case['defs'] = gen.render_program(prog)
     ns = rng.choice(['', '', 'nsA'])
     case['defs']['namespace'] = ns
+    case['def_ns'] = {}
+    if ns and not wb and rng.random() < 0.6:
+        # definitions spread over the caller's namespace and the default
+        # one: a name is looked up in the namespace of the caller first and
+        # then in the default namespace ('both' = a definition in each)
+        place = {}
+        for w in all_wfs[1:]:
+            place[w['name']] = rng.choice(['ns', 'default', 'default',
+                                           'both'])
+        case['def_place'] = place
+        case['defs'] = progcase.render_placed(prog, place, ns)
+        case['def_ns'] = dict((k2, ns if v in ('ns', 'both') else '')
+                              for k2, v in place.items())
     case['starts'] = [{'wf': main_name, 'namespace': ns,
                        'input': {'x': 1}, 'params': {'env': dict(ENV)}}]
     prog['workflows'][0]['env'] = dict(ENV)
@@ -227,9 +246,10 @@ def evaluate(case, res):
                                 lab.any(w['id']),
                                 lab.any(w['root_execution_id']),
                                 lab.any(root['id'])), sig))
+            want_ns = (case.get('def_ns') or {}).get(
+                w['name'], root['workflow_namespace'] or '')
             if (w['params'] or {}).get('namespace', '') != rns or \
-                    (w['workflow_namespace'] or '') != (
-                        root['workflow_namespace'] or ''):
+                    (w['workflow_namespace'] or '') != want_ns:
                 out.append(('C09.root_id',
                             'execution %s has namespace %r/%r, caller has '
                             '%r' % (lab.any(w['id']),
@@ -293,6 +313,7 @@ def probes(case, res):
         'via_rpc': int(bool(case['config'].get('subwf_via_rpc'))),
         'workbook': int(bool(case['prog'].get('workbook'))),
         'namespace': int(bool(case['defs'].get('namespace'))),
+        'mixed_namespaces': int(bool(case.get('def_ns'))),
         'dup': res.sim.stats.get('fault:duplicate', 0),
     }
 
